@@ -75,6 +75,12 @@ def canon (d : DB) : String :=
   let info := seqStr ((sortByStr (·.1) d.hostInfo).map fun (a, i) => s!"{a}:{i.lastTick}")
   s!"T={d.tick};D={d.launchDeadline};F={d.failed};defs=[{defs}];kv=[{kv}];img=[{img}];kill=[{kill}];hosts=[{hosts}];Requests=[{mbox d.requests}];Outgoing=[{mbox d.outgoing}];info=[{info}]"
 
+/-- the answer of the SHARD_STATES query for every shard of the view (`toShardState`, server.go:252-290) -/
+def statesLine (d : DB) : String :=
+  "states " ++ seqStr ((sortBy (·.shardId) d.image.shards).map fun (c : Shard) =>
+    let leader := match c.replicas.find? (·.isLeader) with | some r => r.replicaId | none => 0
+    s!"{c.shardId}:{c.available d.tick}:{leader}")
+
 partial def loop (h : IO.FS.Stream) (d : Option DB) : IO Unit := do
   let line ← h.getLine
   if line.isEmpty then return ()
@@ -83,10 +89,22 @@ partial def loop (h : IO.FS.Stream) (d : Option DB) : IO Unit := do
   | .ok j =>
     if js j "op" == "new" then
       IO.println "new"; loop h (some {})
+    else if js j "op" == "snap" then
+      match d with
+      | some db =>
+        -- snapshot + restore: `assertNotFailed`, then the JSON round trip, which is the identity on the
+        -- modelled fields for valid-UTF-8 keys (the only ones this protocol can carry)
+        if db.failed then do IO.println "panic"; loop h none
+        else do IO.println s!"snap {canon db}"; loop h d
+      | none => loop h none
+    else if js j "op" == "states" then
+      match d with
+      | some db => IO.println (statesLine db); loop h d
+      | none => loop h none
     else match d, parseCmd j with
       | some db, some c =>
         match db.apply c with
-        | .ok (db', n) => IO.println s!"{n} {canon db'}"; loop h (some db')
+        | .ok (db', n) => IO.println s!"{n} {canon db'}"; IO.println (statesLine db'); loop h (some db')
         | .panic _ => IO.println "panic"; loop h none
       | none, _ => loop h none     -- sequence already fail-stopped
       | _, none => IO.println "bad-op"; loop h d
